@@ -28,7 +28,7 @@ PROPS = [("due", ["2024-05-01", "2024-06-01", "2024-06-15", "2023-12-31", "soon"
          ("k", ["7", "42", "007", "val", "x9", "Some_Value", "-3", "12abc"]),
          ("ab_c", ["1200", "P3", "file", "val"]), ("foo", ["2031-12-31", "240101#0A"])]
 LINKS = ["[[target]]", "[[target#sec]]", "[[targetX]]", "[[sub/bar]]", "[[foo]]", "[[Zed]]", "[#gid1]", "[@rid1]", "[240105#0A]", "[[foo_bar]]",
-         "[[fooXbar]]"]
+         "[[fooXbar]]", "[@rid2]", "[#gid3]", "[@rid2]"]
 
 
 def gen_page(rng, n_items, with_ids=False):
@@ -51,8 +51,8 @@ def gen_page(rng, n_items, with_ids=False):
                 k, vs = rng.choice(PROPS); ws.append("%s::%s" % (k, rng.choice(vs)))
             else:
                 ws.append(rng.choice(LINKS))
-        if with_ids and i < 3:
-            ws.append(["ID::gid1", "RID::rid1", "ID::gid2"][i])
+        if with_ids and i < 4:
+            ws.append(["ID::gid1", "RID::rid1", "ID::gid2", "ID::gid3 RID::rid2"][i])     # one note owns both an ID and an RID
         lines.append("%s%s %s" % (kind, pr, " ".join(ws)))
         if rng.random() < 0.25:
             lines.append("")
@@ -60,7 +60,7 @@ def gen_page(rng, n_items, with_ids=False):
 
 
 def gen_dir(rng):
-    files = {"target.zo": gen_page(rng, 4, with_ids=True), "foo_bar.zo": gen_page(rng, 4), "fooXbar.zo": gen_page(rng, 3),
+    files = {"target.zo": gen_page(rng, 5, with_ids=True), "foo_bar.zo": gen_page(rng, 4), "fooXbar.zo": gen_page(rng, 3),
              "sub/bar.zo": gen_page(rng, 4), "sub/foo.zo": gen_page(rng, 3), "Zed.zo": gen_page(rng, 3)}
     files["target.zo"] = files["target.zo"].replace("\n\n", "\n\n- 240105#0A the zid target note\n", 1)
     return files
@@ -284,20 +284,28 @@ def run(oc, tier, seed):
                     trig = set()
                     for a in (w or []):
                         trig |= triggers(a)
-                    bad = None
+                    bad, unexplained = None, False
                     if impl[0] != "ok":
                         bad = "raised %s" % impl[1]
+                        unexplained = m[0] not in ("oom",) and m[0] == "ok"     # the SQL model answers, the code raises
                     elif w:
+                        model_set = set(m[1]) if m[0] == "ok" else None
                         for n in ix:
                             s = sat_or(ix, n, w, today)
                             if s is None:
                                 continue
                             if s != (n[1] in impl[1]):
-                                bad = "note %s %s but %s" % (n[1], "satisfies the filter" if s else "does not satisfy the filter",
-                                                             "is not returned" if s else "is returned")
-                                break
+                                # a known SQL defect is reproduced by the SQL model; a failing note on which the
+                                # implementation also leaves the model is not explained by any known finding
+                                new = model_set is not None and ((n[1] in model_set) != (n[1] in impl[1]))
+                                if bad is None or (new and not unexplained):
+                                    bad = "note %s %s but %s" % (n[1], "satisfies the filter" if s else "does not satisfy the filter",
+                                                                 "is not returned" if s else "is returned")
+                                    unexplained = new
+                                if new:
+                                    break
                     if bad:
-                        t = sorted(trig)[0] if trig else None
+                        t = sorted(trig)[0] if (trig and not unexplained) else None
                         oc.spec_fail.append((dict(case, index=ix), {"what": bad, "returned": impl[1]}, "exactly the satisfying notes", t))
                         if t:
                             oc.known_hit.setdefault(t, "%s: %s" % (q, bad))
